@@ -281,11 +281,26 @@ def run_dispatch(ctx: Ctx) -> None:
             ("batch[[2, 0]]", [2, 0]), ("batch[tensor([1, 2])]", STensor.from_flat([1, 2], [2], symt.INT)), ("batch[...]", Ellipsis),
             ("batch[1:, :]", (slice(1, None), slice(None))), ("batch[1, ...]", (1, Ellipsis)), ("batch[..., 0:2]", (Ellipsis, slice(0, 2))),
             ("batch[:, 0]", (slice(None), 0)), ("batch[2:3, :, :, :]", (slice(2, 3), slice(None), slice(None), slice(None))),
+            # a batch index that reorders / repeats all items together with a channel slice (a flow field then stops being one)
+            ("batch[[2, 0, 1], 0:1]", ([2, 0, 1], slice(0, 1))), ("batch[[1, 1, 0], 0:1]", ([1, 1, 0], slice(0, 1))),
+            ("batch[tensor([2, 0, 1]), 0:1]", (STensor.from_flat([2, 0, 1], [3], symt.INT), slice(0, 1))),
+            ("batch[1:3, 0:1]", (slice(1, 3), slice(0, 1))),
+            # selections that shorten the batch: the result has as many grids as entries (or is refused / a plain tensor)
+            ("batch[tensor([True, False, True])]", STensor.from_flat([True, False, True], [3], symt.BOOL)),
+            ("batch.narrow(0, 1, 2)", ("method", "narrow", (0, 1, 2))), ("batch.narrow(0, 2, 1)", ("method", "narrow", (0, 2, 1))),
         ]
         for name, key in idx_forms:
             def thi(key=key, name=name, flow=flow):
                 env = DEnv(ctx, flow)
-                r = env.it.method(env.batch, "__getitem__", key)
+                try:
+                    if isinstance(key, tuple) and key and isinstance(key[0], str) and key[0] == "method":
+                        r = env.it.method(env.batch, key[1], *key[2])
+                    else:
+                        r = env.it.method(env.batch, "__getitem__", key)
+                except InterpError as e:
+                    if e.exc_type in ("ValueError", "IndexError", "TypeError", "NotImplementedError"):
+                        return True, f"refused: {e.exc_type}"  # a refusal is not a mis-described image
+                    raise
                 return env.check_result(r, name)
             _guard(ctx, "T19.index", f"{kind}:{name}", fG, f"class={kind} index={name}", thi)
 
